@@ -111,7 +111,7 @@ func genStr(rng *rand.Rand, class string) string {
 	return "x"
 }
 
-var mboxClasses = []string{"ascii", "inbox-case", "ampersand", "unicode", "space-quote", "control", "hier", "percent-star", "long"}
+var mboxClasses = []string{"ascii", "inbox-case", "inbox-prefix", "ampersand", "unicode", "space-quote", "control", "hier", "percent-star", "long"}
 
 func genMailbox(rng *rand.Rand, class string) string {
 	switch class {
@@ -119,6 +119,9 @@ func genMailbox(rng *rand.Rand, class string) string {
 		return "Box" + fmt.Sprint(rng.Intn(1000))
 	case "inbox-case":
 		return []string{"INBOX", "inbox", "InBoX"}[rng.Intn(3)]
+	case "inbox-prefix":
+		// only INBOX itself is case-insensitive
+		return []string{"Inboxes", "inbox-2023", "Inbox2/Lists", "inbox/sub", "InBoX.old", "inboxx", "Inbox/"}[rng.Intn(7)] + fmt.Sprint(rng.Intn(5))
 	case "ampersand":
 		return []string{"R&D", "&", "a&-b", "&AOk-", "x&y&z"}[rng.Intn(5)]
 	case "unicode":
@@ -1089,7 +1092,7 @@ func main() {
 	hx.Main(hx.Spec{
 		ID:    "C02",
 		Level: "exploration",
-		Rule:  "sessions of 45..60 client API calls over every command the server implements (LOGIN / AUTHENTICATE PLAIN, CREATE with special-use, DELETE, RENAME, SUBSCRIBE, UNSUBSCRIBE, LIST with select/return options and STATUS items, STATUS, APPEND with flags/date/payload sizes around 4096, SELECT/EXAMINE, UNSELECT, CLOSE, EXPUNGE, UID EXPUNGE, SEARCH/UID SEARCH with criteria trees of depth <= 2 over every field and return options incl. SAVE, FETCH/UID FETCH with all attribute subsets and body/binary sections with parts, specifiers, header lists and partials, STORE, COPY, MOVE, NAMESPACE, IDLE, UNAUTHENTICATE + LOGIN) x string arguments from 18 classes and mailbox names from 9 classes x servers {IMAP4rev1, rev1+rev2, rev1+LITERAL+, rev1+extensions} x {nothing enabled, UTF8=ACCEPT, IMAP4rev2}; distinct = distinct (server configuration, enabled extension, command bytes on the wire without the tag)",
+		Rule:  "sessions of 45..60 client API calls over every command the server implements (LOGIN / AUTHENTICATE PLAIN, CREATE with special-use, DELETE, RENAME, SUBSCRIBE, UNSUBSCRIBE, LIST with select/return options and STATUS items, STATUS, APPEND with flags/date/payload sizes around 4096, SELECT/EXAMINE, UNSELECT, CLOSE, EXPUNGE, UID EXPUNGE, SEARCH/UID SEARCH with criteria trees of depth <= 2 over every field and return options incl. SAVE, FETCH/UID FETCH with all attribute subsets and body/binary sections with parts, specifiers, header lists and partials, STORE, COPY, MOVE, NAMESPACE, IDLE, UNAUTHENTICATE + LOGIN) x string arguments from 18 classes and mailbox names from 10 classes x servers {IMAP4rev1, rev1+rev2, rev1+LITERAL+, rev1+extensions} x {nothing enabled, UTF8=ACCEPT, IMAP4rev2}; distinct = distinct (server configuration, enabled extension, command bytes on the wire without the tag)",
 		Assumptions: []string{
 			"normalisation: INBOX case-fold; flags and header field names compared case-insensitively; search dates compared as calendar dates in the time's own zone; since+before 24h apart is equivalent to ON; Larger/Smaller zero = unset; a search without return option is delivered with ReturnAll (documented server default); UID commands imply the UID fetch item",
 			"an argument longer than 4096 bytes that the server has to buffer may be refused (checked by C06); if it is accepted it must be intact",
